@@ -289,8 +289,14 @@ impl<T> VecExt for Vec<T> {
 }
 
 /// evaluation of a block operand (C11): logs which operand of which item was evaluated
-pub fn cap(site: u32, operand: i64) {
+pub fn cap(site: u32, operand: i64) -> MoveOnly {
     call(site, "cap", operand.canon());
+    MoveOnly(())
+}
+/// what a block capture hands to its closure: neither Clone nor Copy
+pub struct MoveOnly(());
+impl MoveOnly {
+    pub fn keep(&self) {}
 }
 
 /// Drives a future produced by `mk` on a fresh current-thread tokio runtime on its own OS thread, so that
